@@ -265,6 +265,20 @@ fn igs_line(rng: &mut Rng) -> (Piece, usize) {
             let (l, c) = igs_loop(rng);
             v.extend(l);
             calls += c;
+        } else if rng.chance(1, 10) {
+            // grab a piece of the screen into memory, then put (a piece of) it back: the piece may lie inside the
+            // grabbed image, stick out of it, or be larger than it
+            let small = |r: &mut Rng| r.range(0, 40);
+            let any = |r: &mut Rng| *r.pick(&[0i64, 1, 5, 9, 10, 11, 20, 39, 40, 41, 100, 199, 200, 319, 320, 700]);
+            let wm = rng.range(0, 16);
+            v.extend(format!("G>1,{wm},{},{},{},{}:", small(rng), small(rng), small(rng), small(rng)).into_bytes());
+            for _ in 0..1 + rng.usize(2) {
+                match rng.below(3) {
+                    0 => v.extend(format!("G>2,{},{},{}:", rng.range(0, 16), any(rng), any(rng)).into_bytes()),
+                    1 => v.extend(format!("G>3,{},{},{},{},{},{},{}:", rng.range(0, 16), any(rng), any(rng), any(rng), any(rng), any(rng), any(rng)).into_bytes()),
+                    _ => v.extend(format!("G>0,{},{},{},{},{},{},{}:", rng.range(0, 16), any(rng), any(rng), any(rng), any(rng), any(rng), any(rng)).into_bytes()),
+                }
+            }
         } else {
             let c = if rng.chance(1, 12) { rng.byte() } else { *rng.pick(IGS_CMDS) };
             v.extend(igs_command(rng, c));
@@ -508,6 +522,22 @@ pub fn gen_c20(rng: &mut Rng, run: u64, thorough: bool) -> Trace {
         }
     };
     transmit(rng, &sw, pieces, &mut t, &mut ui);
+    if rng.chance(1, 8) {
+        // text commands whose text arrives as characters, not bytes (a front end that decodes UTF-8 itself):
+        // characters the graphics fonts have no glyph for
+        const WIDE: [u32; 8] = [0x100, 0x2588, 0x263A, 0xE000, 0xFFFD, 0x1_F600, 0x10_FFFF, 0xE9];
+        let cps: Vec<u32> = (0..1 + rng.usize(4)).map(|_| if rng.chance(1, 3) { u32::from(b'a' + rng.below(26) as u8) } else { *rng.pick(&WIDE) }).collect();
+        if rip {
+            t.events.push(Ev::Rx { hex: to_hex(if rng.chance(1, 2) { b"!|@0A0A" } else { b"!|T" }) });
+            t.events.push(Ev::RxWide { cps });
+            t.events.push(Ev::Rx { hex: to_hex(b"|\n") });
+        } else {
+            t.events.push(Ev::Rx { hex: to_hex(b"G#W>10,10,") });
+            t.events.push(Ev::RxWide { cps });
+            t.events.push(Ev::Rx { hex: to_hex(b"@\r\n") });
+        }
+        t.labels.push("wide=yes".into());
+    }
     t.events.push(Ev::NextAction);
     t.events.push(Ev::Picture);
     t
